@@ -134,7 +134,9 @@ class Process:
         This method restores the process state by its string representation.
         """
         data = json.loads(state_encoded)
-        for name in self.__dict__:
-            self.__dict__[name] = None
+        # attributes that did not exist when the state was saved are removed
+        for name in list(self.__dict__):
+            if name not in data:
+                del self.__dict__[name]
         for name, member in data.items():
             self.__dict__[name] = pickle.loads(bytes.fromhex(member))
